@@ -7,6 +7,7 @@ import core
 from core import LeanDriver, canon
 from gen import rules
 import lib_topo as T
+import lib_topoc09 as X
 
 ID = "C09"
 GENERATORS = [rules.generate]
@@ -15,14 +16,17 @@ P = "FimVerif.C09."
 THEOREMS = [P + t for t in (
     "atomic_addGNode", "atomic_nodeNew", "atomic_addNode", "atomic_setProps", "atomic_unsetProp", "atomic_rename",
     "atomic_ifaceNew_orphan", "atomic_ifaceNew", "atomic_addInterface", "atomic_linkNew", "atomic_addLink",
-    "atomic_connectInterface", "atomic_connectInterface_bogus", "atomic_addNetworkService", "atomic_nodeAddService", "atomic_addComponent", "atomic_addStorage", "atomic_disconnectInterface", "atomic_removeInterface",
+    "atomic_connectInterface", "atomic_connectInterface_bogus", "atomic_addNetworkService", "atomic_nodeAddService", "atomic_addComponent",
+    "atomic_addComponent_gen", "atomic_addStorage", "atomic_disconnectInterface", "atomic_removeInterface",
     "atomic_addFacility", "atomic_addSwitch", "atomic_removeLink", "atomic_removeNode", "atomic_removeFacility", "atomic_removeSwitch",
     "atomic_removeService", "atomic_nodeRemoveService", "atomic_removeComponent",
-    "atomic_op", "addComponent_counterexample",
+    "atomic_op",
     "atomic_addChildInterface", "atomic_addPortMirror", "atomic_addComponentMT", "atomic_removeChildInterface", "atomic_peer",
-    "atomic_unpeer", "atomic_xop")] + [
+    "atomic_unpeer", "atomic_xop", "atomic_updateCaplab", "atomic_yop", "atomic_any", "history_atomic", "history_erasure",
+    "okOps_all_ok", "history_all_failed", "removeNode_multipeer_counterexample")] + [
     "FimVerif.Topo." + t for t in (
-    "removeCpAndLinks_spec", "removeNs_spec", "removeCompGraph_spec", "removeNodeGraph_spec", "detachAll_spec", "removeNodeGraph_fac")]
+    "removeCpAndLinks_spec", "removeNs_spec", "removeCompGraph_spec", "removeNodeGraph_spec", "detachAll_spec", "removeNodeGraph_fac",
+    "removeCompGraph_comp0", "removeCompGraph_comp1", "flag_componentRollback")]
 TRUSTED_BASE = [
     "Model/Topo.lean mirrors by hand the control flow of fim/user/{topology,node,component,network_service,interface,link}.py and the "
     "add_*/remove_* sliver functions of abc_property_graph.py over NetworkXPropertyGraph primitives; checked differentially on every call "
@@ -34,7 +38,8 @@ TRUSTED_BASE = [
     "gen/rules.py: component catalogue (with what generate_component derives), service/link layers, NO_UNSET_PROPERTIES, and one flag per "
     "repaired idiom read off the AST: exception type selected by the rollback handler of NetworkService.__init__, position of `iindex = 0` "
     "in add_facility, try/except of add_facility/add_switch, validate-before-create in the two attach functions, name pre-check of "
-    "connect_interface, try/except clean-up of peer, the node_exists skip in _disconnect_interfaces; a behaviour probe of add_node's id check",
+    "connect_interface, try/except clean-up of peer, try/except clean-up of add_component_sliver, the node_exists skip in _disconnect_interfaces; "
+    "a behaviour probe of add_node's id check",
     "uuid4 freshness: generated ids are modelled as a counter disjoint from caller-supplied ids",
     "set iteration order (lists of neighbours) is canonicalised by sorting before comparison",
     "Topo.step / TopoOp and Topo.stepX / XOp (the alphabets atomic_op / atomic_xop quantify over) wrap the same functions the driver calls, "
@@ -47,9 +52,9 @@ TRUSTED_BASE = [
 ]
 ASSUMPTIONS = [
     "single-threaded use; NetworkX backend (the API's default); names are ASCII",
-    "PARTIAL: atomic_op covers all 22 request kinds of the first alphabet and atomic_xop all 6 of the second (add_child_interface, "
-    "remove_child_interface, peer, unpeer, add_port_mirror_service, add_component(model_type=)) under explicit decidable hypotheses; the one "
-    "call outside Covered is add_component with caller-supplied service/interface ids (known finding, addComponent_counterexample)",
+    "atomic_op covers all 22 request kinds of the first alphabet and atomic_xop all 6 of the second (add_child_interface, "
+    "remove_child_interface, peer, unpeer, add_port_mirror_service, add_component(model_type=)) under explicit decidable hypotheses; "
+    "add_component with caller-supplied service/interface ids is inside since the clean-up of commit e285d22 (atomic_addComponent)",
     "ExperimentTopology.prune is modelled (the marked elements in the order the call visits them come from the run) and checked "
     "differentially and by the oracle, but has no theorem: it is a sequence of removals, each covered on its own (CoveredX excludes it)",
     "not modelled (so outside the proved claim): interface_labels other than empty Labels(), the Neo4j backend",
@@ -67,7 +72,13 @@ _RM = ["ids", "spOwned", "spPeer1", "spLeaf", "cpEdgeOk"]
 HYP_OPS = {"remove_node": _RM, "remove_facility": _RM, "remove_switch": _RM, "remove_service": _RM, "node_remove_service": _RM,
            "remove_component": _RM, "remove_link": ["ids", "spLeaf"], "unpeer": ["ids", "spLeaf"], "add_facility": ["ids", "closed"],
            "add_switch": ["ids", "closed"], "remove_child_interface": ["ids", "spOwned", "spPeer1", "spLeaf"],
-           "disconnect": ["ids"], "ns_remove_interface": ["ids"], "add_link": ["ids"], "peer": ["ids", "closed"]}
+           "disconnect": ["ids"], "ns_remove_interface": ["ids"], "add_link": ["ids"], "peer": ["ids", "closed"],
+           "add_component": ["ids", "closed"], "add_component_mt": ["ids", "closed"]}
+
+
+# every caller of Topology._disconnect_interfaces
+DETACH_OPS = ("remove_node", "remove_facility", "remove_switch", "remove_component", "remove_service", "node_remove_service",
+              "remove_child_interface", "prune")
 
 
 # --------------------------------------------------------------------------
@@ -75,7 +86,7 @@ HYP_OPS = {"remove_node": _RM, "remove_facility": _RM, "remove_switch": _RM, "re
 def run_history(flavour, ops_or_gen, on_step=None, nmax=None):
     """Run ops (a list, or a callable producing the next op from the session) on the implementation.
     Returns list of steps: dict(op, line, outcome, before, after, cache_before, cache_after)."""
-    sess = T.Session(flavour)
+    sess = X.SessionX(flavour)
     steps = []
     hist = []
     try:
@@ -128,7 +139,10 @@ def signature(st):
     mod = ""
     if not left and not gone:
         mod = "cache"
-    api = {"add_component_mt": "add_component"}.get(st["op"]["op"], st["op"]["op"])      # the same API call, model_type= form
+    api = {"add_component_mt": "add_component", "add_node_nsinfo": "add_node(ns_info=)"}.get(st["op"]["op"], st["op"]["op"])  # same API call
+    if api in DETACH_OPS and st["outcome"][1] == "topology" and X.multi_sp_peer(st["before"]):
+        # the model error the code itself names: an interface of the removed element has more than one ServicePort peer
+        mod += ":multi-sp-peer"
     return "C09:%s:%s:left[%s]lost[%s]%s" % (api, st["outcome"][1], left, gone, mod)
 
 
@@ -149,7 +163,7 @@ def check_step(st, res, case):
 def random_history(ctx, tag, flavour, n, fault, ext=False):
     rng = ctx.sub_rng(tag)
     names = T.Names(rng)
-    return run_history(flavour, lambda sess: T.gen_op(rng, sess, names, fault, ext=ext), nmax=n)
+    return run_history(flavour, lambda sess: X.gen_op_x(rng, sess, names, fault, ext=ext), nmax=n)
 
 
 def base_ops(flavour):
@@ -237,6 +251,7 @@ def systematic_cases(flavour):
             {"op": "remove_component", "parent": "h1", "name": "nic2"},
             {"op": "add_link", "name": "lx", "nid": "lxid", "ltype": "Patch", "ifs": ["h3", "h6"], "kw": []}]))
     out += extension_cases(flavour, base)
+    out += c09_cases(flavour, base)
     # bad keyword at every position among good ones, for every creating call
     g = {"node": T.GOOD_KW["node"][:2], "comp": T.GOOD_KW["comp"][:2], "svc": T.GOOD_KW["svc"][:2], "iface": T.GOOD_KW["iface"][:2],
          "link": T.GOOD_KW["link"][:2]}
@@ -450,6 +465,142 @@ def extension_cases(flavour, base):
     return out
 
 
+def c09_cases(flavour, base):
+    """argument positions and calls of lib_topoc09: composites' labels / capacities / service type, a node's service with
+    interfaces, update_labels / update_capacities, attribute assignment, removals by the wrong call, and the states in which
+    an interface has two ServicePort peers"""
+    out = []
+    sub = flavour == "sub"
+    nid = (lambda s: s) if sub else (lambda s: None)
+    lab = lambda d: ["lab", d]
+    sw = {"op": "add_switch", "name": "swx", "nid": nid("swxid"), "site": "RENC", "nports": 2}
+    out.append(("add_switch/x/ok", base + [dict(sw, nslabels=lab({"vlan": "210"}), portlabels=lab({"local_name": "px"}), portcaps=["cap", {"bw": 25}])]))
+    for tag, ch in (("bad-nslabels-int", {"nslabels": ["int", 5]}), ("bad-nslabels-cap", {"nslabels": ["cap", {"bw": 1}]}),
+                    ("bad-portlabels-str", {"portlabels": ["str", "x"]}), ("bad-portlabels-cap", {"portlabels": ["cap", {"bw": 1}]}),
+                    ("bad-portcaps-str", {"portcaps": ["str", "fast"]}), ("bad-portcaps-lab", {"portcaps": lab({"vlan": "1"})}),
+                    ("good-ns+bad-port", {"nslabels": lab({"vlan": "210"}), "portcaps": ["str", "fast"]}),
+                    ("no-nstype", {"nstype_none": True})):
+        out.append(("add_switch/x/" + tag, base + [dict(sw, **ch)]))
+    out.append(("add_switch/x/derived-ns-id-taken", base + [
+        {"op": "node_add_service", "parent": "h0", "name": "taken", "nid": "swyid-ns", "nstype": "VLAN", "kw": []},
+        {"op": "add_switch", "name": "swy", "nid": "swyid", "site": "RENC", "nports": 2}]))
+    out.append(("add_switch/x/derived-ns-id-taken+labels", base + [
+        {"op": "node_add_service", "parent": "h0", "name": "taken", "nid": "swyid-ns", "nstype": "VLAN", "kw": []},
+        {"op": "add_switch", "name": "swy", "nid": "swyid", "site": "RENC", "nports": 2, "nslabels": lab({"vlan": "5"})}]))
+    fac = {"op": "add_facility", "name": "facx", "nid": nid("facxid"), "site": "RENC"}
+    out.append(("add_facility/x/ok", base + [dict(fac, nslabels=lab({"vlan": "220"}), kw=[["capacities", ["cap", {"bw": 1}]]])]))
+    for tag, ch in (("bad-nslabels-str", {"nslabels": ["str", "x"]}), ("bad-nslabels-cap", {"nslabels": ["cap", {"bw": 1}]}),
+                    ("no-nstype", {"nstype_none": True}),
+                    ("good-ns+bad-iface", {"nslabels": lab({"vlan": "220"}), "ifs": [["fa", lab({"vlan": "1"}), ["cap", {"bw": 1}]], ["fb", ["str", "v"], ["cap", {"bw": 1}]]]})):
+        out.append(("add_facility/x/" + tag, base + [dict(fac, **ch)]))
+    # update_labels / update_capacities, attribute assignment: a good one, then a bad field among good ones, on every kind
+    if not sub:
+        elems = base + [{"op": "add_service", "name": "kwsvc", "nstype": "L2Bridge", "ifs": [], "kw": []},          # h10
+                        {"op": "add_link", "name": "kwlink", "ltype": "L2Path", "ifs": ["h3", "h6"], "kw": []}]     # h11
+        targets = [("node", "h0"), ("comp", "h2"), ("iface", "h3"), ("svc", "h10"), ("link", "h11")]
+    else:
+        elems = base
+        targets = [("node", "h0"), ("comp", "h2"), ("iface", "h3")]
+    for kind, hk in targets:
+        for which in ("labels", "capacities"):
+            ops = list(elems)
+            for f in X.UPD_GOOD[which][:2]:
+                ops.append({"op": "update_" + which, "h": hk, "fields": f})
+            for f in X.UPD_BAD[which]:
+                ops.append({"op": "update_" + which, "h": hk, "fields": f})
+            out.append(("update_%s/%s" % (which, kind), ops))
+        ops = list(elems)
+        for attr in X.SIMPLE_ATTRS[kind]:
+            ops += [{"op": "set_attr", "h": hk, "attr": attr, "val": X.ATTR_GOOD[attr]}]
+            if attr in X.ATTR_BAD:
+                ops += [{"op": "set_attr", "h": hk, "attr": attr, "val": X.ATTR_BAD[attr]}]
+            ops += [{"op": "set_attr", "h": hk, "attr": attr, "val": ["none"]},
+                    {"op": "set_attr", "h": hk, "attr": attr, "val": ["none"]}]
+        out.append(("set_attr/%s" % kind, ops))
+    out.append(("update_labels/stale-handle", base + [
+        {"op": "remove_component", "parent": "h1", "name": "nic2"},
+        {"op": "update_labels", "h": "h5", "fields": {"vlan": "9"}},
+        {"op": "update_capacities", "h": "h6", "fields": {"bogus": 1}}]))
+    out.append(("oracle-only/set_attr/image", base + [
+        {"op": "set_attr", "h": "h0", "attr": "image_ref", "val": ["str", "img1"]},
+        {"op": "set_attr", "h": "h0", "attr": "image_type", "val": ["str", "qcow2"]},
+        {"op": "set_attr", "h": "h0", "attr": "image_ref", "val": ["str", "img2"]},
+        {"op": "set_attr", "h": "h0", "attr": "image_ref", "val": ["int", 5]},
+        {"op": "set_attr", "h": "h0", "attr": "image_type", "val": ["int", 5]},
+        {"op": "set_attr", "h": "h0", "attr": "image_ref", "val": ["none"]},
+        {"op": "set_attr", "h": "h0", "attr": "image_type", "val": ["none"]}]))
+    out.append(("oracle-only/add_node/ns_info-taken-id", base + [
+        {"op": "add_node_nsinfo", "name": "nq", "nid": "nqid", "ns_nid": "freeid"},
+        {"op": "add_node_nsinfo", "name": "nr", "nid": "nrid", "ns_nid": "nqid"}]))
+    if sub:
+        return out
+    # a node's own service created with interfaces (the constructor's rollback, with a parent)
+    pre = base + [{"op": "add_service", "name": "pre", "nstype": "L2Bridge", "ifs": ["h4"], "kw": []}]               # h10
+    for fault, b in (("bogus", T.BOGUS), ("connected", "h4"), ("repeat", "h3")):
+        for n in (1, 2, 3):
+            goods = ["h3", "h6", "h7"][:n - 1]
+            for pos in range(n):
+                if fault == "repeat" and "h3" not in goods:
+                    continue
+                ifs = goods[:pos] + [b] + goods[pos:]
+                out.append(("node_add_service/ifs/%s@%d/%d" % (fault, pos, n), pre + [
+                    {"op": "node_add_service", "parent": "h1", "name": "own", "nstype": "OVS", "ifs": ifs, "kw": []}]))
+    # removal by the wrong call, on a node that has a connected interface and a connected sub-interface
+    wrong = base + [
+        {"op": "add_child_interface", "port": "h3", "name": "sub1", "kw": [["labels", ["lab", {"vlan": "101"}]]]},     # h10
+        {"op": "add_service", "name": "sk", "nstype": "L2Bridge", "ifs": ["h10", "h4", "h7"], "kw": []},              # h11
+        {"op": "add_switch", "name": "sw1", "site": "RENC", "nports": 2},                                            # h12; h13 h14
+        {"op": "add_facility", "name": "fac1", "site": "RENC", "kw": []},                                            # h15; h16
+        {"op": "add_service", "name": "sf", "nstype": "L2STS", "ifs": ["h13", "h16"], "kw": []}]
+    for call, name in (("remove_facility", "n1"), ("remove_switch", "n1"), ("remove_facility", "sw1"), ("remove_switch", "fac1"),
+                       ("remove_node", "fac1"), ("remove_facility", "nope"), ("remove_switch", "nope")):
+        out.append(("%s/wrong-type/%s" % (call, name), wrong + [{"op": call, "name": name}]))
+    # an interface with two ServicePort peers (add_link accepts a ServicePort of another service): every caller of
+    # _disconnect_interfaces then raises after the interfaces before it were disconnected - known findings
+    two = base + [
+        {"op": "add_child_interface", "port": "h4", "name": "sub1", "kw": [["labels", ["lab", {"vlan": "101"}]]]},     # h10
+        {"op": "add_service", "name": "sa", "nstype": "L2Bridge", "ifs": ["h3", "h4", "h10"], "kw": []},              # h11
+        {"op": "add_service", "name": "sb", "nstype": "L2Bridge", "ifs": [], "kw": []},                              # h12
+        {"op": "ns_add_interface", "svc": "h12", "name": "bx", "itype": "ServicePort", "kw": []}]                     # h13
+    for tag, victim, rm in (
+            ("remove_node", "h4", {"op": "remove_node", "name": "n1"}),
+            ("remove_component", "h4", {"op": "remove_component", "parent": "h0", "name": "nic1"}),
+            ("remove_child_interface", "h10", {"op": "remove_child_interface", "port": "h4", "name": "sub1"})):
+        out.append(("multi-sp-peer/" + tag, two + [
+            {"op": "add_link", "name": "lx", "ltype": "L2Path", "ifs": [victim, "h13"], "kw": []}, rm]))
+    mark = lambda h: {"op": "set_props", "h": h, "kw": [["reservation_info", ["rinfo", "Failed"]]]}
+    out.append(("multi-sp-peer/prune", two + [
+        {"op": "add_link", "name": "lx", "ltype": "L2Path", "ifs": ["h4", "h13"], "kw": []}, mark("h0"), {"op": "prune", "state": "Failed"}]))
+    sws = base + [
+        {"op": "add_switch", "name": "sw1", "site": "RENC", "nports": 2},                                            # h10; h11 h12
+        {"op": "add_facility", "name": "fac1", "site": "RENC", "ifs": [["fa", ["lab", {"vlan": "1"}], ["cap", {"bw": 1}]],
+                                                                        ["fb", ["lab", {"vlan": "2"}], ["cap", {"bw": 1}]]]},  # h13; h14 h15
+        {"op": "add_service", "name": "sa", "nstype": "L2STS", "ifs": ["h11", "h12", "h14", "h15"], "kw": []},       # h16
+        {"op": "add_service", "name": "sb", "nstype": "L2Bridge", "ifs": [], "kw": []},                              # h17
+        {"op": "ns_add_interface", "svc": "h17", "name": "bx", "itype": "ServicePort", "kw": []}]                     # h18
+    for tag, victim, rm in (
+            ("remove_switch", "h12", {"op": "remove_switch", "name": "sw1"}),
+            ("remove_facility", "h15", {"op": "remove_facility", "name": "fac1"}),
+            ("node_remove_service", "h12", {"op": "node_remove_service", "parent": "h10", "name": "sw1-ns"})):
+        out.append(("multi-sp-peer/" + tag, sws + [
+            {"op": "add_link", "name": "lx", "ltype": "L2Path", "ifs": [victim, "h18"], "kw": []}, rm]))
+    # a top-level service whose own interfaces are connected to another service, one of them twice
+    tops = base + [
+        {"op": "add_service", "name": "so", "nstype": "L2Bridge", "ifs": [], "kw": []},                              # h10
+        {"op": "ns_add_interface", "svc": "h10", "name": "o1", "itype": "TrunkPort", "kw": []},                       # h11
+        {"op": "ns_add_interface", "svc": "h10", "name": "o2", "itype": "TrunkPort", "kw": []},                       # h12
+        {"op": "add_service", "name": "sb", "nstype": "L2Bridge", "ifs": [], "kw": []},                              # h13
+        {"op": "ns_add_interface", "svc": "h13", "name": "b1", "itype": "ServicePort", "kw": []},                     # h14
+        {"op": "ns_add_interface", "svc": "h13", "name": "b2", "itype": "ServicePort", "kw": []},                     # h15
+        {"op": "ns_add_interface", "svc": "h13", "name": "b3", "itype": "ServicePort", "kw": []},                     # h16
+        {"op": "add_link", "name": "l1", "ltype": "L2Path", "ifs": ["h12", "h14"], "kw": []},        # o2 is visited first
+        {"op": "add_link", "name": "l2", "ltype": "L2Path", "ifs": ["h11", "h15"], "kw": []},
+        {"op": "add_link", "name": "l3", "ltype": "L2Path", "ifs": ["h11", "h16"], "kw": []},
+        {"op": "remove_service", "name": "so"}]
+    out.append(("multi-sp-peer/remove_service", tops))
+    return out
+
+
 def corpus_cases():
     out = []
     for fn in sorted(glob.glob(os.path.join(CORPUS, "*.json"))):
@@ -474,9 +625,11 @@ def compare_with_model(steps_by_history, res):
         lines.append(json.dumps({"op": "reset"}))
         index.append(None)
         for si, st in enumerate(steps):
-            if st["op"]["op"] in HYP_OPS:
+            if st["op"]["op"] in HYP_OPS and st["line"] is not None:
                 lines.append(json.dumps({"op": "hyp"}))
                 index.append(("hyp", hi, si))
+            if st["line"] is None:
+                continue
             lines.append(T.lean_line(st["line"]))
             index.append((hi, si))
     replies = LeanDriver("C09").run(lines)
@@ -532,7 +685,8 @@ def correspondence(ctx, res):
         hs.append(run_history(fl, ops))
     for fl in ("exp", "sub"):
         for tag, ops in systematic_cases(fl):
-            hs.append(run_history(fl, ops))
+            if not tag.startswith("oracle-only/"):
+                hs.append(run_history(fl, ops))
     n = ctx.scale(45, 300)
     for i in range(n):
         fl = "exp" if i % 3 else "sub"
@@ -568,7 +722,7 @@ def oracle(ctx, res, budget=None):
         sess_ops = []
 
         def gen(sess):
-            op = T.gen_op(rng, sess, names, 0.45, ext=(i % 2 == 1))
+            op = X.gen_op_x(rng, sess, names, 0.45, ext=(i % 2 == 1), oracle_only=True)
             sess_ops.append(op)
             return op
         steps = run_history(fl, gen, nmax=ctx.scale(25, 40))
